@@ -2,6 +2,15 @@
   Y0.Spec.CtfSem — what an `Event` of the counterfactual-transport API (a list of pairs (counterfactual variable,
   `Intervention | None`)) denotes in a functional SCM (Y0/Spec/Fscm.lean): the conjunction of `Y_x = y` over the items
   whose value is not `None`; an item with value `None` puts no constraint.
+
+  Second part: what the pair (expression, event) returned by `do_counterfactual_factor_factorization` denotes
+  (`factorisedValue`).  Reading (the one of harness/oracles/ctf_fscm.py `eval_factorised`, ASSUMPTIONS of c19.py):
+    * `Sum[R] e` sums over all values (below `card`) of the names in `R`;
+    * a subscript `-N` of a factor variable whose name is bound by the enclosing `Sum` denotes the bound value; every
+      other subscript (`+N`, or `-N` with `N` not bound) its literal value `ν N ·`;
+    * a factor variable `W_s` whose vertex `W` is bound takes the bound value; otherwise it takes every value the
+      returned event gives to `W_s` (no entry, or the value `None`: unconstrained);
+    * `P(c_1, …, c_k)` is the probability of the conjunction (shared noise), a `Product` the product.
 -/
 import Y0.Spec.Fscm
 
@@ -19,5 +28,66 @@ def probEventOpt (M : Model) (ν : BaseValues) (e : List (Var × Option Iv)) : R
 /-- the event holds at the noise point `u` -/
 def EventHolds (M : Model) (ν : BaseValues) (u : NoisePoint) (e : List (Var × Option Iv)) : Prop :=
   ∀ p ∈ e, ∀ i, p.2 = some i → solve M u (worldOf ν p.1.ivs) p.1.name = ivValue ν i
+
+/-! ### y0's reading of self-intervened variables
+
+The paper's Algorithm 1 (and y0's own ID*) treat `Y_y = y` as a tautology that is removed from the event and `Y_y = y'`
+as impossible.  y0's SIMPLIFY (and the pinned test `test_simplify_y`) instead take `Y_y` to be "the same variable as `Y`":
+`Y_{..y..} = y` is read as the event `Y = y` in the world without interventions (`Y_{..y..} = y'` stays impossible).
+`y0Read` rewrites an event accordingly; `none` means "impossible by effectiveness". -/
+
+def y0ReadItem (p : Var × Option Iv) : Option (Var × Option Iv) :=
+  if p.1.ivs.any (fun i => i.name == p.1.name) then
+    match p.2 with
+    | none => some ({ name := p.1.name }, none)
+    | some i => if p.1.ivs.any (fun j => decide (j = i)) then some ({ name := p.1.name }, some i) else none
+  else some p
+
+def y0Read (e : List (Var × Option Iv)) : Option (List (Var × Option Iv)) := e.mapM y0ReadItem
+
+/-! ### value of a factorised expression -/
+
+/-- `Σ` over all assignments of values below `card` to the names `xs`; the assignment is handed to the summand as an
+association list (`forced r n` looks a name up) -/
+def sumAssign (card : Name → Nat) : List Name → (Do → Rat) → Rat
+  | [], F => F []
+  | x :: xs, F => ((List.range (card x)).map fun k => sumAssign card xs (fun r => F ((x, k) :: r))).sum
+
+/-- the value a subscript of a factor variable denotes when the names in `r` are bound by the enclosing `Sum` -/
+def boundIvValue (ν : BaseValues) (r : Do) (i : Iv) : Nat :=
+  if i.star then ivValue ν i else (forced r i.name).getD (ivValue ν i)
+
+/-- the world of a factor variable -/
+def boundWorld (ν : BaseValues) (r : Do) (S : List Iv) : Do := S.map fun i => (i.name, boundIvValue ν r i)
+
+/-- the values the factor variable `w` is constrained to: the bound value of its vertex, else the values the returned
+event gives it -/
+def factorVarValues (ν : BaseValues) (r : Do) (ev : List (Var × Option Iv)) (w : Var) : List Nat :=
+  match forced r w.name with
+  | some k => [k]
+  | none => ev.filterMap fun p => if p.1 = w then p.2.map (ivValue ν) else none
+
+/-- the conjuncts of one factor `P(c_1, …, c_k)` -/
+def factorConjuncts (ν : BaseValues) (r : Do) (ev : List (Var × Option Iv)) (F : List Var) : List Conjunct :=
+  F.flatMap fun w => (factorVarValues ν r ev w).map fun k =>
+    { var := w.name, world := boundWorld ν r w.ivs, val := k }
+
+/-- a factor of the product: `P(c_1, …, c_k)` (no population, no conditioning), or `One` -/
+def probValue (M : Model) (ν : BaseValues) (r : Do) (ev : List (Var × Option Iv)) : Expr → Rat
+  | .prob none c [] => prob M (factorConjuncts ν r ev c)
+  | .one => 1
+  | _ => 0
+
+/-- the body of the sum: a product of factors or a single factor -/
+def prodValue (M : Model) (ν : BaseValues) (r : Do) (ev : List (Var × Option Iv)) : Expr → Rat
+  | .prod fs => (fs.map (probValue M ν r ev)).foldr (· * ·) 1
+  | e => probValue M ν r ev e
+
+/-- value of the pair (expression, event) returned by `do_counterfactual_factor_factorization` in the model `M`, under
+the reading `ν` of the value symbols, the variable `n` ranging over the values below `card n` -/
+def factorisedValue (M : Model) (ν : BaseValues) (card : Name → Nat) (e : Expr) (ev : List (Var × Option Iv)) : Rat :=
+  match e with
+  | .sum body ranges => sumAssign card (ranges.map (·.name)) (fun r => prodValue M ν r ev body)
+  | e => prodValue M ν [] ev e
 
 end Y0.Ctf
